@@ -263,6 +263,11 @@ func NewInst(p Prog) (*Inst, error) {
 			}
 		}
 
+		// a symbolic link (MemFS only): /d/s -> x
+		if err := m.Symlink("x", "/d/s"); err != nil {
+			return nil, err
+		}
+
 		if p.Users {
 			if _, err := idm.AddGroup("grp"); err != nil {
 				return nil, err
@@ -621,7 +626,7 @@ func readDir(p string) Tmpl {
 func one(c fsx.Call) Tmpl { return Tmpl{c} }
 
 // Templates is the alphabet of thread templates on colliding names of the
-// initial tree (/d{x,h->x,e{z}}, /f, /tmp). removeAll adds RemoveAll, which is
+// initial tree (/d{x,h->x,e{z},s (MemFS: symbolic link to x)}, /f{g}, /tmp). removeAll adds RemoveAll, which is
 // documented as "removes what it can" and is therefore not required to be
 // atomic (used by the C07/C08 plans only).
 func Templates(fs string, core, removeAll bool) []Tmpl {
@@ -679,6 +684,17 @@ func Templates(fs string, core, removeAll bool) []Tmpl {
 		one(fsx.Call{Op: "Chtimes", A: "/d/x", N: 5}),
 		one(fsx.Call{Op: "Chdir", A: "/d/e"}),
 	)
+
+	if fs == "MemFS" {
+		// the link /d/s -> x itself: its owner is the only attribute that changes
+		t = append(t,
+			one(fsx.Call{Op: "Lchown", A: "/d/s", N: 5, M: 6}),
+			one(fsx.Call{Op: "Lstat", A: "/d/s"}),
+			one(fsx.Call{Op: "Readlink", A: "/d/s"}),
+			one(fsx.Call{Op: "Remove", A: "/d/s"}),
+			one(fsx.Call{Op: "Rename", A: "/d/s", B: "/d/y"}),
+		)
+	}
 
 	if removeAll {
 		t = append(t, one(fsx.Call{Op: "RemoveAll", A: "/d"}))
